@@ -5,7 +5,7 @@ CONSTANTS
   MaxLen = 3
   Ops = {2, 6}
   StopAtHit = TRUE
-  CheckFlags = FALSE
+  CheckFlags = TRUE
   Bug = "DropOriginal"
   Deviations = {}
 INVARIANTS Spelling RefinesCursor NoHitIfDone HitIfBound PairExact LoopReportExact
